@@ -350,7 +350,7 @@ class Item(ItemConfig):
         if self.disable:
             items = tuple(
                 item for item in items
-                if not SchedulerConfig.match_item_keys(item.name, self.disable, match_item_parents=True)
+                if not SchedulerConfig.match_item_keys(item.name, self.disable)
             )
         if (removed_dependencies := self.plan_data.get('removed_dependencies')):
             items = tuple(item for item in items if item not in removed_dependencies)
